@@ -64,8 +64,8 @@ def body_orch(E, cfg):
         E.check("returned-row-is-a-candidate", any(row is c for c in cands))
         if any(row is c for c in cands):
             E.check("returned-row-has-the-highest-confidence", And([row.confidence >= c.confidence for c in cands]))
-    E.check("candidate-message-lists-every-candidate", len(world.messages) == (1 if cands or True else 0)
-            and (not world.messages or len(world.messages[-1].messages) == len(cands)))
+    if cands:
+        E.check("candidate-message-lists-every-candidate", len(world.messages) == 1 and len(world.messages[-1].messages) == len(cands))
     return [[list(k) for k in calls], None if row is None else row.confidence]
 
 
